@@ -114,9 +114,10 @@ inline char32_t gen_cp(vf::Src& s, const GenCtx& g) {
 }
 inline Scalars gen_text(vf::Src& s, const GenCtx& g, size_t maxLen = 12) {
 	size_t n = s.len(maxLen); Scalars t; for (size_t i = 0; i < n; i++) t.push_back(gen_cp(s, g));
-	if (g.xmlText) {   // KF-13: pugixml drops empty / whitespace-only text and trims nothing else; keep a visible first and last character
+	if (g.xmlText) {   // KF-13: pugixml drops empty / whitespace-only text (and nothing else: leading and trailing blanks around visible text survive)
 		auto blank = [](char32_t c) { return c == ' ' || c == '\t' || c == '\n' || c == '\r'; };
-		if (t.empty() || blank(t.front())) t.insert(t.begin(), U'x'); if (blank(t.back())) t.push_back(U'y');
+		bool allBlank = true; for (char32_t c : t) if (!blank(c)) allBlank = false;
+		if (allBlank) t.insert(t.begin() + static_cast<long>(s.draw(t.size() + 1)), U'x');
 	}
 	return t;
 }
